@@ -17,7 +17,5 @@ Definition items : list (string * kind) := [
   ("aisle", FieldCell);
   ("aisle", UnsafeBlock);
   ("aisle", UnsafeBlock);
-  ("convert", FieldSync);
-  ("convert", FieldSync);
   ("quantity", StaticLazyLock)
 ].
